@@ -1,5 +1,6 @@
 import KoordVerif.Proofs.C07Base
 import KoordVerif.Proofs.C07Ext
+import KoordVerif.Model.C07RO
 /-
 C07 — property theorems (DESIGN.md §4 C07).  All amounts are read value-wise: `drVal d minor k` is the
 amount of resource dimension `k` on device `minor`, a missing map entry or key counting as 0.
@@ -1188,5 +1189,311 @@ example : allocate (refreshT TState.empty [(0, [some 100]), (1, [some 100]), (2,
 
 example : allocate (addT (refreshT TState.empty [(0, [some 100]), (1, [some 100])]) 1 [(0, [some 50])])
     { req := [some 60], desired := 2, npcie := 0, required := [], preferred := [] } = none := by decide
+
+/-! ## Extension 2: read-only pipeline steps, event shapes, reservations behind the filtering handler
+    (Model/C07RO.lean; driven by the `events` harness) -/
+
+/-! ### read-only steps are the identity on the ledger -/
+
+theorem dryRemovePod_fst (s : TState) (d : Dry) (p : Nat) (rsv : Option Nat) : (dryRemovePod s d p rsv).1 = s := by
+  unfold dryRemovePod
+  simp only []
+  split
+  · rfl
+  · split <;> rfl
+
+theorem dryAddPod_fst (s : TState) (d : Dry) (p : Nat) (rsv : Option Nat) : (dryAddPod s d p rsv).1 = s := by
+  unfold dryAddPod
+  simp only []
+  split
+  · rfl
+  · split <;> rfl
+
+theorem roStep_fst (sc : TState × Cycle) (st : RoStep) : (roStep sc st).1 = sc.1 := by
+  cases st with
+  | removePod p rsv => simp only [roStep]; exact dryRemovePod_fst _ _ _ _
+  | addPod p rsv => simp only [roStep]; exact dryAddPod_fst _ _ _ _
+  | restore m u => rfl
+  | filter ms a => rfl
+  | unmodelled => rfl
+
+/-- READ-ONLY STEPS PRESERVE THE STATE: whatever preemption dry-run (RemovePod / AddPod over any victims, with or
+    without reservations), reservation restore and Filter steps a scheduling cycle runs, in any order and number, the
+    ledger (total, free, used, allocateSet) it started from is the ledger it ends with. -/
+theorem readonly_steps_preserve_state (s : TState) (c : Cycle) (steps : List RoStep) : (roRun s c steps).1 = s := by
+  unfold roRun
+  suffices h : ∀ (sc : TState × Cycle), (steps.foldl roStep sc).1 = sc.1 from h (s, c)
+  induction steps with
+  | nil => intro sc; rfl
+  | cons st rest ih => intro sc; simp only [List.foldl_cons]; rw [ih, roStep_fst]
+
+/-- so every theorem about `run` holds verbatim for histories with read-only cycles interleaved -/
+theorem run_with_readonly (s : TState) (ops : List Op) (c : Cycle) (steps : List RoStep) :
+    run (roRun s c steps).1 ops = run s ops := by rw [readonly_steps_preserve_state]
+
+/-! ### what a dry-run accumulates: Σ of the victims' records -/
+
+theorem alSum_eq_drVal (d : DevRes) (hn : (d.map (·.1)).Nodup) (m k : Nat) : alSum d m k = drVal d m k := by
+  induction d with
+  | nil => simp [alSum, drVal, drGetD, drGet, rlVal_nil]
+  | cons e rest ih =>
+    obtain ⟨m', v⟩ := e
+    simp only [List.map_cons, List.nodup_cons] at hn
+    simp only [alSum, drVal, drGetD, drGet]
+    by_cases h : m' = m
+    · subst h
+      simp [alSum_not_mem rest m' k hn.1]
+    · have := ih hn.2
+      simp only [drVal, drGetD] at this
+      simp [h, this]
+
+theorem drAppend_val (inp : DevRes) : ∀ (r : DevRes) (m k : Nat),
+    drVal (drAppend r inp []) m k = drVal r m k + alSum inp m k := by
+  induction inp with
+  | nil => intro r m k; simp [drAppend, alSum]
+  | cons e rest ih =>
+    intro r m k
+    obtain ⟨m', v⟩ := e
+    have ih' := ih
+    unfold drAppend at ih' ⊢
+    simp only [List.foldl_cons, List.isEmpty_nil, Bool.not_true, Bool.false_and, Bool.false_eq_true, if_false] at ih' ⊢
+    rw [ih']
+    simp only [alSum]
+    cases hg : drGet r m' with
+    | none =>
+      simp only [drVal, drGetD, drGet_drSet]
+      by_cases h : m' = m
+      · subst h; simp [hg, rlVal_nil]
+      · simp [h]
+    | some d =>
+      simp only [drVal, drGetD, drGet_drSet]
+      by_cases h : m' = m
+      · subst h; simp [hg, rlVal_add]; omega
+      · simp [h]
+
+/-- Σ over the victims of what the cache records for them -/
+def victimsSum (s : TState) : List Nat → Nat → Nat → Int
+  | [], _, _ => 0
+  | p :: ps, m, k => alSum (getUsed s p) m k + victimsSum s ps m k
+
+theorem foldl_removePod (s : TState) (ps : List Nat) : ∀ (c : Cycle) (m k : Nat),
+    drVal (roRun s c (ps.map (fun p => RoStep.removePod p none))).2.dry.pre m k
+      = drVal c.dry.pre m k + victimsSum s ps m k := by
+  induction ps with
+  | nil => intro c m k; simp [roRun, victimsSum]
+  | cons p rest ih =>
+    intro c m k
+    have hstep : roStep (s, c) (RoStep.removePod p none) = (s, { c with dry := (dryRemovePod s c.dry p none).2 }) := by
+      have := dryRemovePod_fst s c.dry p none
+      simp only [roStep]
+      cases hd : dryRemovePod s c.dry p none with
+      | mk a b => simp [hd] at this; subst this; rfl
+    have hrun : roRun s c ((p :: rest).map (fun p => RoStep.removePod p none))
+        = roRun s { c with dry := (dryRemovePod s c.dry p none).2 } (rest.map (fun p => RoStep.removePod p none)) := by
+      simp only [roRun, List.map_cons, List.foldl_cons, hstep]
+    rw [hrun, ih]
+    simp only [victimsSum]
+    have : drVal (dryRemovePod s c.dry p none).2.pre m k = drVal c.dry.pre m k + alSum (getUsed s p) m k := by
+      unfold dryRemovePod
+      simp only [dryTarget]
+      split
+      · rename_i he
+        have : getUsed s p = [] := by
+          cases hgu : getUsed s p with
+          | nil => rfl
+          | cons a b => simp [hgu] at he
+        simp [this, alSum]
+      · simp only []
+        exact drAppend_val _ _ _ _
+    rw [this]; omega
+
+/-- the preemptible amounts after a dry-run removal of the victims `ps` (none inside a reservation), started on a fresh
+    cycle, are exactly the sum of what the cache records for the victims -/
+theorem dry_pre_eq_sum (s : TState) (ps : List Nat) (m k : Nat) :
+    drVal (roRun s Cycle.empty (ps.map (fun p => RoStep.removePod p none))).2.dry.pre m k = victimsSum s ps m k := by
+  rw [foldl_removePod]
+  simp [Cycle.empty, Dry.empty, drVal, drGetD, drGet, rlVal_nil]
+
+/-! ### event shapes -/
+
+theorem delete_shape_decoded (sh : Shape) (p : Nat) (o : PodObj) :
+    sevOps (.podDelete sh p o) = if sh.wellFormedDelete then deletePodOps p o else [] := by
+  cases sh <;> rfl
+
+theorem run_single (s : TState) (op : Op) : run s [op] = step s op := rfl
+
+/-- a delete event of an assigned, device-holding pod delivered in ANY well-formed shape (the object, or a tombstone by
+    value) leaves the pod unrecorded and touches the record of no other pod -/
+theorem delete_wellformed_releases (s : TState) (sh : Shape) (p : Nat) (o : PodObj) (al : List (Nat × RL))
+    (hw : sh.wellFormedDelete = true) (ha : o.assigned = true) (hal : o.alloc = some al) (q : Nat) :
+    hasPod (run s (sevOps (.podDelete sh p o))) q = (hasPod s q && !decide (p = q)) := by
+  rw [delete_shape_decoded, hw]
+  simp only [if_true, deletePodOps, ha, hal, Bool.not_true, Bool.false_eq_true, if_false, run_single, step]
+  exact remove_forgets s p al q
+
+/-- shapes client-go never delivers are ignored (the ledger is untouched) -/
+theorem delete_garbage_noop (s : TState) (sh : Shape) (p : Nat) (o : PodObj) (hw : sh.wellFormedDelete = false) :
+    run s (sevOps (.podDelete sh p o)) = s := by
+  rw [delete_shape_decoded, hw]; rfl
+
+theorem histExact_append (a : List Op) : ∀ (s : TState) (b : List Op),
+    histExact s (a ++ b) = (histExact s a && histExact (run s a) b) := by
+  induction a with
+  | nil => intro s b; simp [histExact, run]
+  | cons op rest ih =>
+    intro s b
+    simp only [List.cons_append, histExact, ih, run, List.foldl_cons, Bool.and_assoc]
+
+theorem run_append (s : TState) (a b : List Op) : run s (a ++ b) = run (run s a) b := by
+  simp [run, List.foldl_append]
+
+/-- … and gives back exactly what the pod held: after an exact history, a well-formed delete carrying the recorded
+    allocation lowers the in-use amount of every device and dimension by the pod's record, no clamp, nothing else -/
+theorem delete_wellformed_releases_amount (ops : List Op) (hx : histExact TState.empty ops = true)
+    (sh : Shape) (p : Nat) (o : PodObj) (al : List (Nat × RL)) (r : DevRes)
+    (hw : sh.wellFormedDelete = true) (ha : o.assigned = true) (hal : o.alloc = some al)
+    (hg : podsGet (run TState.empty ops).pods p = some r) (hok : alOK al = true) (hr : recOf al = r) (m k : Nat) :
+    drVal (run (run TState.empty ops) (sevOps (.podDelete sh p o))).used m k
+      = drVal (run TState.empty ops).used m k - drVal r m k := by
+  have hops : sevOps (.podDelete sh p o) = [Op.remove p al] := by
+    rw [delete_shape_decoded, hw]; simp [deletePodOps, ha, hal]
+  rw [hops, ← run_append]
+  have hx2 : histExact TState.empty (ops ++ [Op.remove p al]) = true := by
+    rw [histExact_append, hx]
+    simp [histExact, opExact, hg, hok, hr]
+  have h1 := (used_eq_sum _ hx2 m k).1
+  have h0 := used_eq_sum _ hx m k
+  simp only [] at h1 h0
+  rw [h1, h0.1]
+  have hpods : (run TState.empty (ops ++ [Op.remove p al])).pods
+      = (run TState.empty ops).pods.filter (fun e => e.1 != p) := by
+    rw [run_append, run_single]
+    have hh : hasPod (run TState.empty ops) p = true := by rw [hasPod_iff_get, hg]; rfl
+    simp only [step, removeT, hh, Bool.not_true, Bool.false_eq_true, if_false]
+    rfl
+  rw [hpods, podsSum_filter _ p r h0.2.1 hg m k]
+  omega
+
+/-- the Lean reading of the code's type switch: a POINTER to a tombstone is not a delete -/
+theorem ptr_tombstone_ignored (p : Nat) (o : PodObj) : sevOps (.podDelete .ptrTomb p o) = [] := rfl
+
+/-! ### reservations behind the filtering handler -/
+
+/-- a reservation delete in ANY well-formed shape (the object, or a tombstone by value — the filter in front of the
+    handler unwraps it, fix c70eb65) releases the reserve pod's devices and touches no other record -/
+theorem rsv_delete_wellformed_releases (s : TState) (sh : Shape) (p : Nat) (r : RsvObj) (al : List (Nat × RL))
+    (hw : sh.wellFormedDelete = true) (hv : r.valid = true) (hac : r.active = true) (ha : r.pod.assigned = true)
+    (hal : r.pod.alloc = some al) (q : Nat) :
+    hasPod (run s (revOps (.rsvDelete sh p r))) q = (hasPod s q && !decide (p = q)) := by
+  have hd : decodeDelete sh = true := by cases sh <;> simp_all [Shape.wellFormedDelete, decodeDelete]
+  simp only [revOps, rsvFilter, hd, hv, hac, Bool.and_self, if_true, deletePodOps, ha, hal, Bool.not_true,
+    Bool.false_eq_true, if_false, run_single, step]
+  exact remove_forgets s p al q
+
+/-- a reservation that stops being active (Succeeded / Failed) is released by the UPDATE that reports it -/
+theorem rsv_inactive_update_releases (s : TState) (p : Nat) (old new : RsvObj) (al : List (Nat × RL))
+    (hv : old.valid = true) (hac : old.active = true) (ha : old.pod.assigned = true) (hal : old.pod.alloc = some al)
+    (hn : new.active = false) (q : Nat) :
+    hasPod (run s (revOps (.rsvUpdate .obj .obj p old new))) q = (hasPod s q && !decide (p = q)) := by
+  simp only [revOps, rsvFilter, decodeDelete, hv, hac, hn, Bool.and_self, Bool.and_false, Bool.false_and, Bool.true_and,
+    Bool.false_eq_true, if_false, if_true, deletePodOps, ha, hal, Bool.not_true, run_single, step]
+  exact remove_forgets s p al q
+
+/-- events the filter or the typed handlers drop leave the ledger alone: invalid / inactive reservations, shapes
+    client-go never delivers, and a tombstone handed to OnAdd -/
+theorem rsv_filtered_noop (s : TState) (sh : Shape) (p : Nat) (r : RsvObj)
+    (h : (r.valid && r.active) = false ∨ sh.wellFormedDelete = false) :
+    run s (revOps (.rsvAdd sh p r)) = s ∧ run s (revOps (.rsvDelete sh p r)) = s := by
+  have hf : rsvFilter sh r = false := by
+    rcases h with h | h
+    · simp only [rsvFilter, Bool.and_assoc, h, Bool.and_false]
+    · cases sh <;> simp_all [Shape.wellFormedDelete, rsvFilter, decodeDelete]
+  simp [revOps, hf, run]
+
+theorem rsv_add_tombstone_noop (s : TState) (p : Nat) (r : RsvObj) : run s (revOps (.rsvAdd .tomb p r)) = s := by
+  simp [revOps, decodeObj, run]
+
+/-! ### a live pod's record is what its add recorded, until its own removal -/
+
+theorem podsGet_append_single (l : List (Nat × DevRes)) (p : Nat) (r : DevRes) (q : Nat) :
+    podsGet (l ++ [(p, r)]) q = match podsGet l q with
+      | some x => some x
+      | none => if p = q then some r else none := by
+  induction l with
+  | nil => simp [podsGet]
+  | cons e rest ih =>
+    obtain ⟨k, v⟩ := e
+    simp only [List.cons_append, podsGet]
+    by_cases h : k = q
+    · simp [h]
+    · simp [h, ih]
+
+theorem podsGet_filter_ne (l : List (Nat × DevRes)) (p q : Nat) (h : q ≠ p) :
+    podsGet (l.filter (fun e => e.1 != p)) q = podsGet l q := by
+  induction l with
+  | nil => rfl
+  | cons e rest ih =>
+    obtain ⟨k, v⟩ := e
+    by_cases hk : k = p
+    · subst hk
+      have : k ≠ q := fun h2 => h h2.symm
+      simp [List.filter_cons, podsGet, this, ih]
+    · by_cases hq : k = q
+      · subst hq
+        simp [List.filter_cons, hk, podsGet]
+      · simp [List.filter_cons, hk, podsGet, hq, ih]
+
+/-- the pod an op names -/
+def opPod : Op → Option Nat
+  | .add p _ => some p
+  | .remove p _ => some p
+  | .refresh _ => none
+
+/-- an accepted add records exactly the allocation it carries (one entry per minor: `recOf`) -/
+theorem add_records_allocation (s : TState) (p : Nat) (al : List (Nat × RL)) (h : hasPod s p = false) :
+    podsGet (addT s p al).pods p = some (recOf al) := by
+  have hn : podsGet s.pods p = none := by
+    have := hasPod_iff_get s p
+    rw [h] at this
+    cases hg : podsGet s.pods p with
+    | none => rfl
+    | some x => simp [hg] at this
+  simp only [addT, h, Bool.false_eq_true, if_false]
+  show podsGet (s.pods ++ [(p, recOf al)]) p = _
+  rw [podsGet_append_single, hn]; simp
+
+/-- no op changes the record of a pod it does not name: adds, removals (whatever they carry), duplicates, refreshes -/
+theorem record_stable (s : TState) (op : Op) (q : Nat) (h : opPod op ≠ some q) :
+    podsGet (step s op).pods q = podsGet s.pods q := by
+  cases op with
+  | add p al =>
+    have hpq : p ≠ q := fun h2 => h (by simp [opPod, h2])
+    simp only [step, addT]
+    split
+    · rfl
+    · show podsGet (s.pods ++ [(p, recOf al)]) q = _
+      rw [podsGet_append_single]
+      cases podsGet s.pods q <;> simp [hpq]
+  | remove p al =>
+    have hpq : q ≠ p := fun h2 => h (by simp [opPod, h2])
+    simp only [step, removeT]
+    split
+    · rfl
+    · show podsGet (s.pods.filter (fun e => e.1 != p)) q = _
+      exact podsGet_filter_ne _ _ _ hpq
+  | refresh nt => rfl
+
+/-- … over any stretch of history that does not name the pod, with any read-only cycles in between (they are the
+    identity: `readonly_steps_preserve_state`): the oracle clause C07:record-ne-live-allocation in Lean -/
+theorem record_stable_run (ops : List Op) (q : Nat) (h : ∀ op ∈ ops, opPod op ≠ some q) :
+    ∀ (s : TState), podsGet (run s ops).pods q = podsGet s.pods q := by
+  induction ops with
+  | nil => intro s; rfl
+  | cons op rest ih =>
+    intro s
+    simp only [run, List.foldl_cons]
+    have := ih (fun o ho => h o (by simp [ho])) (step s op)
+    simp only [run] at this
+    rw [this, record_stable s op q (h op (by simp))]
 
 end KoordVerif.C07
